@@ -45,6 +45,21 @@ def hook_part(ctx, r):
                 raw = b.enc()
                 reqs.append("%s %d %s" % (coin, len(raw), raw.hex()))
                 meta.append((coin, v, b, want))
+    # the parent coinbase's scriptSig is opaque: a merged-mining tag (fa be 6d 6d + 32-byte root + size + nonce) complete, cut short
+    # at every length, repeated, or at the very end of the script must not matter
+    tag = bytes.fromhex("fabe6d6d")
+    full = tag + GC.rb(r, 32) + struct.pack("<II", 1, 0)
+    for coin in ("namecoin", "dogecoin"):
+        for cut in [4, 5, 20, 36, 40, 43, 44]:
+            for pre in (b"", b"\x03\x01\x02\x03"):
+                sig = pre + full[:cut]
+                for suf in ((b"", b"/pool/") if cut == 44 else (b"",)):
+                    pcb = K.Tx([(b"\0" * 32, 0xffffffff, sig + suf, 0xffffffff)], [(r.randrange(1 << 40), b"\x51")])
+                    cbx = K.Tx([(b"\0" * 32, 0xffffffff, GC.rb(r, 8), 0xffffffff)], [(50 * 10**8, GC.spk(r, coin, "p2pkh"))])
+                    b = K.Block([cbx], prev=GC.rb(r, 32), version=K.AUXPOW[coin] + 1, time=5, nonce=7, auxpow=K.auxpow_section(r, coinbase=pcb, nbranch1=2, nbranch2=1))
+                    raw = b.enc()
+                    reqs.append("%s %d %s" % (coin, len(raw), raw.hex()))
+                    meta.append((coin, K.AUXPOW[coin] + 1, b, True))
     if ctx.thorough():
         for coin in ("namecoin", "dogecoin"):
             b = aux_block(r, coin, K.AUXPOW[coin], True, n1=0x10000, n2=0xffff)
